@@ -532,7 +532,7 @@ impl Run {
             self.prop,
             campaign,
             violation.kind,
-            truncate(&violation.detail, 2000)
+            truncate(&violation.detail, 1200)
         );
         println!("VIOLATION property={} replay={}", self.prop, p);
         self.violations.push(FoundViolation {
@@ -557,7 +557,7 @@ impl Run {
             .unwrap(),
         );
         let p = path.to_string_lossy().to_string();
-        eprintln!("violation in {} / {} entry={}: kind={} detail={}", self.prop, campaign, entry, violation.kind, truncate(&violation.detail, 2000));
+        eprintln!("violation in {} / {} entry={}: kind={} detail={}", self.prop, campaign, entry, violation.kind, truncate(&violation.detail, 1200));
         println!("VIOLATION property={} replay={}", self.prop, p);
         self.violations.push(FoundViolation {
             campaign: campaign.to_string(),
